@@ -178,8 +178,9 @@ class Sweep:
                 dims=[tuple(keys)],
             )
 
-        if not any(k in self.items for k in keys):
-            # Return an empty sweep with no dimensions if no items match the filter keys
+        if not any(k in self.items for k in keys) or any(len(v) == 0 for v in self.items.values()):
+            # Return an empty sweep with no dimensions if no items match the filter keys,
+            # or if the sweep itself is empty because one of its dimensions is.
             return Sweep({})
 
         dims: list[str | tuple[str, ...]]
